@@ -61,6 +61,15 @@ def oracle(w, final):
                 return {"clause": "as-soon-as-connected", "signature": "late-transmission",
                         "message": f"message #{c['idx']} accepted at {c['t']}, connection {f['cid']} opened at {opened}, "
                                    f"but written at {f['t']}"}
+            # under back-pressure a message may wait behind earlier ones whose writer is parked - but a message
+            # accepted on an open connection when everything accepted before it has already been written has
+            # nothing to wait for: it goes to the transport at once, stalled peer or not
+            if f["t"] != c["t"] and opened < c["t"] and f["cid"] == _conn_at(w, ivs, c["t"]):
+                earlier = [seen.get(d["idx"]) for d in w.accepted() if d["idx"] < c["idx"]]
+                if all(e is not None and e["t"] < c["t"] for e in earlier):
+                    return {"clause": "as-soon-as-connected", "signature": "late-transmission-nothing-ahead",
+                            "message": f"message #{c['idx']} accepted at {c['t']} on connection {f['cid']} (open since {opened}) with every "
+                                       f"earlier message already written, but written only at {f['t']}"}
             continue
         if not final or paused:
             continue
@@ -77,6 +86,16 @@ def oracle(w, final):
                 return {"clause": "transmitted-when-connected", "signature": "lost-message",
                         "message": f"message #{c['idx']} {c['name']} (accepted at {c['t']}, lifetime {c['life']}) was never "
                                    f"written although connection {live[-1].cid} has been open since {live[-1].opened_at} (now {now})"}
+    return None
+
+
+def _conn_at(w, ivs, t):
+    """The connection that was open (not yet closed by anybody) strictly around time t, or None."""
+    for (cid, o, e) in ivs:
+        if o < t and (e is None or e > t) and not any(x[1] in ("abort", "lost") and x[2] == cid and x[0] <= t for x in w.net.log):
+            tr = w.net.conns[cid]
+            if not any(x[1] == "close" and x[2] == cid and x[0] <= t for x in w.net.log) and not (tr.eof_from_peer and False):
+                return cid
     return None
 
 
